@@ -337,7 +337,7 @@ Proof. exists 74, 79, (s2b "2024-02-29 23:59:59.5 x"). vm_compute. repeat split;
 
 (* hypotheses of plan_search / first_way are satisfiable *)
 Example plan_search_example :
-  chain_ok true (rx_re iso_rx) iso_plan = true /\
+  chain_ok OAbs (rx_re iso_rx) iso_plan = true /\
   texts_ok iso_plan (iso_texts 2024 2 29 23 59 59 32) (s2b "up") = true /\
   search (rx_re iso_rx) (concat (iso_texts 2024 2 29 23 59 59 32) ++ s2b "up") =
     Match (0, mkC 20 (s2b "up") (final_caps iso_plan (iso_texts 2024 2 29 23 59 59 32) (s2b "up") 0)).
